@@ -200,7 +200,7 @@ func init() {
 
 func init() {
 	specs["C08"] = &Spec{ID: "C08", Level: "exploration", Parallel: 4,
-		Assumptions: []string{loopAssumption, "the race detector reports only accesses that executed (happens-before based): silence means no race on the calls and interleavings listed here", "a call is judged only when the farm measurably sent its reply within 0.85 T of receiving the request (planned delays <= 0.7 T)", "successful TCP calls from a fixed bind port are left out of the plans (a 4-tuple cannot be reused within TIME_WAIT - kernel behaviour, not the library's); a refused TCP controller is included", "schedules are perturbed (GOMAXPROCS 2/4/16, adversarial reply delays), not enumerated"},
+		Assumptions: []string{loopAssumption, "the race detector reports only accesses that executed (happens-before based): silence means no race on the calls and interleavings listed here", "a call is judged only when the farm measurably sent its reply within 0.85 T of receiving the request (planned delays <= 0.7 T)", "successful TCP calls from a fixed bind port are left out of the plans (a 4-tuple cannot be reused within TIME_WAIT - kernel behaviour, not the library's); a refused TCP controller is included; two overlapping calls to one TCP controller from a fixed port are judged only on whether the second waited its turn (failed inside the window in which the farm held the first request = violation), never on the connect outcome after its turn", "schedules are perturbed (GOMAXPROCS 2/4/16, adversarial reply delays), not enumerated"},
 		Plan: func(tier string) []Batch {
 			// "with or without a fixed bind port ... even if the call first had to wait its turn": the fixed-port rounds of C09's
 			// workload (calls of several clients queued on one port, overlapping bind addresses, two TCP calls in a row from one port)
